@@ -23,6 +23,14 @@ pub struct FileGroupHdr { pub file_len: FileLen }        // the one field of Fil
 // the hasher as the stage closures see it: hashing a chunk yields Some(hash of exactly that chunk) or None when the file
 // could not be read (ASSUMED contract of FileHasher::hash_file_or_log_err: Kani units c15_hash_file_* + Verus unit scan_loop)
 #[verifier::external_body] pub struct FileHash { _p: () }
+impl Clone for FileHash {
+    #[verifier::external_body]
+    fn clone(&self) -> (r: FileHash) ensures r == *self { unimplemented!() }
+}
+// std: Option::map_or (not specified by vstd)
+pub assume_specification<T, U, F: FnOnce(T) -> U> [Option::<T>::map_or] (o: Option<T>, default: U, f: F) -> (r: U)
+    requires o is Some ==> f.requires((o->Some_0,)),
+    ensures o is None ==> r == default, o is Some ==> f.ensures((o->Some_0,), r);
 pub uninterp spec fn chunk_hash(pos: u64, len: u64) -> FileHash;
 pub uninterp spec fn readable() -> bool;
 pub uninterp spec fn xor_spec(a: FileHash, b: FileHash) -> FileHash;
